@@ -2,6 +2,8 @@ package harness
 
 import (
 	"fmt"
+	"github.com/apache/yunikorn-core/pkg/scheduler"
+	"github.com/apache/yunikorn-core/pkg/scheduler/objects"
 	"sort"
 	"strconv"
 	"strings"
@@ -54,6 +56,8 @@ type Op struct {
 	// "key-outstanding:key", "no-app:id"); a reduced history in which this no longer holds is not a counterexample
 	Need []string `json:"need,omitempty"`
 	N    int      `json:"n,omitempty"`
+	// ScheduleRace
+	Race string `json:"race,omitempty"`
 }
 
 // Op kinds.
@@ -84,6 +88,10 @@ const (
 	OpRemovePart  = "RemovePartitions"
 	OpInspect     = "InspectOutstanding"
 	OpHostile     = "Hostile"
+	// OpScheduleRace is a scheduling cycle with an RM request delivered between its two halves (after the application
+	// allocated / reserved / started a replacement, before the partition processes that result). Race names the request,
+	// it is resolved against the result of the cycle: release-ask, remove-app, remove-node, drain-node, release-placeholder.
+	OpScheduleRace = "ScheduleRace"
 )
 
 func (o Op) String() string {
@@ -101,6 +109,9 @@ func (o Op) String() string {
 	}
 	if len(o.Res) > 0 {
 		add("res", o.Res)
+	}
+	if o.Race != "" {
+		add("race", o.Race)
 	}
 	if o.Queue != "" {
 		add("queue", o.Queue)
@@ -280,10 +291,38 @@ func (w *World) Step(op Op) *StepResult {
 	w.tagStep(pre, op)
 	w.Shim.BeginStep(op)
 	var reloadCh chan *rmevent.Result
+	var raceInner *Op
 	msg := w.run(func() {
 		switch op.Kind {
 		case OpSchedule:
 			res.Scheduled = w.CC.VerifSchedule()
+		case OpScheduleRace:
+			fired := false
+			scheduler.VerifMidCycleFn = func(appID, key, nodeID string, _ objects.AllocationResultType) {
+				if fired {
+					return
+				}
+				fired = true
+				inner := w.resolveRace(op.Race, appID, key, nodeID)
+				if inner == nil {
+					return
+				}
+				if shape := w.ExcludedShape(*inner); shape != "" {
+					// the resolved request is the trigger of a listed finding: not delivered
+					w.Excl(shape)
+					return
+				}
+				raceInner = inner
+				w.Lines = append(w.Lines, "      mid-cycle (result for "+appID+"/"+key+" on "+nodeID+"): "+inner.String())
+				w.Shim.noteOp(*inner)
+				if req := inner.request(); req != nil {
+					w.CC.VerifDispatch(req)
+				}
+			}
+			func() {
+				defer func() { scheduler.VerifMidCycleFn = nil }()
+				res.Scheduled = w.CC.VerifSchedule()
+			}()
 		case OpFirePh:
 			if a := w.part().GetApplication(op.App); a != nil {
 				res.Fired = a.VerifFirePlaceholderTimer()
@@ -382,7 +421,13 @@ func (w *World) Step(op Op) *StepResult {
 	if res.ReloadErr != "" {
 		w.Lines = append(w.Lines, "      reload rejected: "+res.ReloadErr)
 	}
-	for _, v := range w.Shim.Absorb(op, res) {
+	absorbAs := op
+	if raceInner != nil {
+		// the events of the step are the answers to the request delivered mid-cycle and the outcome of the cycle
+		absorbAs = *raceInner
+		w.Tag("race-" + op.Race)
+	}
+	for _, v := range w.Shim.Absorb(absorbAs, res) {
 		w.vio("C04", "%s", v)
 	}
 	post := TakeSnapshot(w.CC, PartName)
@@ -553,4 +598,31 @@ func (w *World) tagStep(pre *Snapshot, op Op) {
 	case OpFirePh:
 		w.Tag("fire-placeholder-timer")
 	}
+}
+
+// resolveRace turns the race template of a ScheduleRace op into the request delivered mid-cycle.
+func (w *World) resolveRace(race, appID, key, nodeID string) *Op {
+	switch race {
+	case "release-ask":
+		return &Op{Kind: OpRelease, App: appID, Key: key, Term: "STOPPED_BY_RM"}
+	case "remove-app":
+		return &Op{Kind: OpRemoveApp, App: appID}
+	case "remove-node":
+		if n := w.Shim.Nodes[nodeID]; n != nil && n.State == "accepted" {
+			return &Op{Kind: OpDecomNode, Node: nodeID}
+		}
+	case "drain-node":
+		if n := w.Shim.Nodes[nodeID]; n != nil && n.State == "accepted" {
+			return &Op{Kind: OpDrainNode, Node: nodeID}
+		}
+	case "release-placeholder":
+		// the placeholder a replacement in this cycle is about (or any bound placeholder of the application)
+		for _, k := range w.Shim.KeysIn(KBound) {
+			sk := w.Shim.Keys[k]
+			if sk.App == appID && sk.Spec.Placeholder {
+				return &Op{Kind: OpRelease, App: appID, Key: k, Term: "STOPPED_BY_RM"}
+			}
+		}
+	}
+	return nil
 }
